@@ -67,10 +67,14 @@ class iter_aux:
              "$nx": "'vna_next' if self.field_prefix == 'vn' else 'vda_next'",
              "$nm": "'vna_name' if self.field_prefix == 'vn' else 'vda_name'"}
     yield_shape = AuxRet
-    loops = {0: dict(invariant=["entry_offset == chain_off($B, $o0, $k, $lay, $nx)", "$k == $n"])}
+    # the walk yields `count` entries, or stops after the first entry whose displacement is zero (the end of the chain)
+    loops = {0: dict(invariant=["entry_offset == chain_off($B, $o0, $k, $lay, $nx)", "$k == $n", "forall(lambda j: P($lay, $B, chain_off($B, $o0, j, $lay, $nx))[$nx] != 0, 0, $k)"],
+                     # every completed iteration moves on by a non-zero displacement and a record is only read inside the
+                     # file: the trip count is bounded by the file size whatever the counts say (C19)
+                     variant="len($B) + 1 - entry_offset")}
     each_yield = ["value.entry == P($lay, $B, chain_off($B, $o0, $n, $lay, $nx))",
                   "value.name == secname(self.stringtable, value.entry[$nm])"]
-    ensures = ["$n == count"]
+    ensures = ["$n <= count", "$n == count or P($lay, $B, chain_off($B, $o0, $n - 1, $lay, $nx))[$nx] == 0", "forall(lambda j: P($lay, $B, chain_off($B, $o0, j, $lay, $nx))[$nx] != 0, 0, $n - 1)"]
     may_raise = ["ELFParseError", "OverflowError"]
 
 VerNeed = Obj('Version', entry=VerneedT, name=Any)
@@ -97,13 +101,17 @@ class iter_versions:
              "$aux": "'vn_aux' if self.field_prefix == 'vn' else 'vd_aux'",
              "$cnt": "'vn_cnt' if self.field_prefix == 'vn' else 'vd_cnt'"}
     yield_shape = VerRet
-    loops = {0: dict(invariant=["entry_offset == chain_off($B, $o0, $k, $lay, $nx)", "$k == $n"])}
+    loops = {0: dict(invariant=["entry_offset == chain_off($B, $o0, $k, $lay, $nx)", "$k == $n", "forall(lambda j: P($lay, $B, chain_off($B, $o0, j, $lay, $nx))[$nx] != 0, 0, $k)"],
+                     # every completed iteration moves on by a non-zero displacement and a record is only read inside the
+                     # file: the trip count is bounded by the file size whatever the counts say (C19)
+                     variant="len($B) + 1 - entry_offset")}
     each_yield = ["value[0].entry == P($lay, $B, chain_off($B, $o0, $n, $lay, $nx))",
-                  "gen_len(value[1]) == value[0].entry[$cnt]",
+                  "gen_len(value[1]) <= value[0].entry[$cnt]",
                   "value[0].entry[$cnt] > 0",
                   "gen_len(value[1]) <= 0 or gen_elem(value[1], 0).entry =="
                   " P($alay, $B, chain_off($B, $o0, $n, $lay, $nx) + value[0].entry[$aux])"]
-    ensures = ["$n == self.header.sh_info"]
+    ensures = ["$n <= self.header.sh_info",
+               "$n == self.header.sh_info or P($lay, $B, chain_off($B, $o0, $n - 1, $lay, $nx))[$nx] == 0", "forall(lambda j: P($lay, $B, chain_off($B, $o0, j, $lay, $nx))[$nx] != 0, 0, $n - 1)"]
     raises_note = "a zero auxiliary count is rejected"
     may_raise = ["ELFError", "OverflowError"]
 
@@ -159,8 +167,12 @@ class verdef_get_version:
     ensures = ["result is None or result[0].entry.vd_ndx == index",
                "result is None or (result[0].entry == P('Elf_Verdef', $B, chain_off($B, $o0, $k0, 'Elf_Verdef', 'vd_next'))"
                " and forall(lambda j: P('Elf_Verdef', $B, chain_off($B, $o0, j, 'Elf_Verdef', 'vd_next')).vd_ndx != index, 0, $k0))",
+               # nothing: no enumerated definition carries the index; the enumeration covers sh_info definitions or ends at the
+               # first zero displacement
                "result is not None or forall(lambda j: P('Elf_Verdef', $B, chain_off($B, $o0, j, 'Elf_Verdef', 'vd_next')).vd_ndx != index,"
-               " 0, self.header.sh_info)"]
+               " 0, $k0)",
+               "result is not None or $k0 == self.header.sh_info"
+               " or P('Elf_Verdef', $B, chain_off($B, $o0, $k0 - 1, 'Elf_Verdef', 'vd_next')).vd_next == 0"]
     may_raise = ["ELFError", "OverflowError"]
 
 
@@ -174,10 +186,11 @@ class verneed_iter_versions:
     loops = {0: dict(invariant=["$k == $n"])}
     each_yield = ["value[0].entry == P('Elf_Verneed', $B, chain_off($B, $o0, $n, 'Elf_Verneed', 'vn_next'))",
                   "value[0].name == secname(self.stringtable, value[0].entry.vn_file)",
-                  "gen_len(value[1]) == value[0].entry.vn_cnt",
+                  "gen_len(value[1]) <= value[0].entry.vn_cnt",
                   "gen_len(value[1]) <= 0 or gen_elem(value[1], 0).entry =="
                   " P('Elf_Vernaux', $B, chain_off($B, $o0, $n, 'Elf_Verneed', 'vn_next') + value[0].entry.vn_aux)"]
-    ensures = ["$n == self.header.sh_info"]
+    ensures = ["$n <= self.header.sh_info",
+               "$n == self.header.sh_info or P('Elf_Verneed', $B, chain_off($B, $o0, $n - 1, 'Elf_Verneed', 'vn_next')).vn_next == 0"]
     may_raise = ["ELFError", "OverflowError"]
 
 
